@@ -118,6 +118,12 @@ def enclosing_lemma(relfile, line):
     return None
 
 
+def compile_props_many(files, timeout=900):
+    from concurrent.futures import ThreadPoolExecutor
+    with ThreadPoolExecutor(max_workers=8) as ex:
+        return list(ex.map(lambda f: compile_props(f, timeout), files))
+
+
 def compile_props(prop_file, timeout=900):
     """coqc a Props file directly to capture its Print Assumptions output.
     returns (ok, {theorem: 'closed' | [axioms]}, log)"""
